@@ -275,6 +275,8 @@ class DirectCollocation(SamplingMethod):
                         value_integrator = horzcat(ca.kron(value[:,:self.N],DM.ones(1,self.M)),value[:,-1])
                         value_integrator_root = ca.kron(value[:,:self.N],DM.ones(1,self.M*self.degree))
                     else:
+                        # A scalar is repeated to fit the shape of a vector-valued state
+                        if value.is_scalar(): value = repmat(value,var.numel(),1)
                         value_integrator = repmat(value,1,self.N*self.M+1)
                         value_integrator_root = repmat(value,1,self.N*self.M*self.degree)
             else:
